@@ -70,7 +70,7 @@ def run(c):
               "order, some names twice or three times, up to 20 captures, with typed-nil / nil-interface / empty-node-slice captures, templates from a token grammar ($name, $name.b, $namez, $$, $nope, lone $), with and "
               "without truncation under 7 TruncateLen values; nodeText (hook) on every expression of a file incl. nodes ending at EOF "
               "and nodes beyond a truncated copy; engine: generated rule groups (1-2 alternatives on separate lines, $* lists, At(), "
-              "Suggest incl. `$$` and the pattern's own text, MatchComment alternatives) over a generated target with offsets known by "
+              "Suggest incl. `$$` and the pattern's own text, Suggest() without Report(), an alternative written twice, MatchComment alternatives, a Suggest-only comment rule) over a generated target with offsets known by "
               "construction, under TruncateLen 0/20/1000; non-trivial = a capture or $$ was interpolated; distinct by full case content")
     c.trusted += [
         "go2coq c03extras (nodeText in-range test through the leaf translator; statement-shape facts of the report path)",
@@ -270,7 +270,26 @@ def run(c):
                        input={"alternative": o["alt"], "message": repr(b64(o["o_msg"]))}, expected=o["w_line"], observed=o["o_line"])
             else:
                 c.nontriv(("comment-line", o["alt"], o["L"]))
-        c.coverage["oracle_vs_impl_cases"] = c.coverage.get("oracle_vs_impl_cases", 0) + len(renders) + len(ntexts) + len(engines) + len(comments)
+        # a comment rule with Suggest() only: message = "suggestion: " + the template (truncated), replacement untruncated
+        suggonly = [o for o in obs if o["k"] == "engine-suggonly"]
+        for o in suggonly:
+            c.count()
+            inp = {"rule": "m.MatchComment(`gamma-(?P<long>\\w+)`).Suggest(`<$long|$$>`)", "comment_match": repr(b64(o["whole"].get("text"))), "TruncateLen": o["L"],
+                   "version": o.get("version")}
+            if o.get("missing"):
+                c.fail("oracle", "the Suggest-only comment rule did not report exactly once", input=inp, expected=1, observed=o["extra"])
+                continue
+            c.nontriv(("suggonly", o["L"], o.get("version")))
+            if b64(o["o_msg"]) != b64(o["w_msg"]):
+                c.fail("oracle", "report message of a Suggest-only rule differs from `suggestion: ` + the interpolated template", input=inp,
+                       expected=repr(b64(o["w_msg"])), observed=repr(b64(o["o_msg"])))
+            if not o["o_has_sugg"] or b64(o["o_sugg"]) != b64(o["w_sugg"]):
+                c.fail("oracle", "quick-fix text is not the Suggest template interpolated with UNtruncated texts", input=inp,
+                       expected=repr(b64(o["w_sugg"])), observed=repr(b64(o["o_sugg"])) if o["o_has_sugg"] else None)
+            if (o["o_pos"], o["o_end"]) != (o["w_pos"], o["w_end"]) or (o["o_has_sugg"] and (o["o_sugg_from"], o["o_sugg_to"]) != (o["w_pos"], o["w_end"])):
+                c.fail("oracle", "the report / the suggestion of a Suggest-only comment rule does not cover exactly the match", input=inp,
+                       expected=[o["w_pos"], o["w_end"]], observed=[o["o_pos"], o["o_end"], o.get("o_sugg_from"), o.get("o_sugg_to")])
+        c.coverage["oracle_vs_impl_cases"] = c.coverage.get("oracle_vs_impl_cases", 0) + len(renders) + len(ntexts) + len(engines) + len(comments) + len(suggonly)
         c.coverage["nodes_ending_at_EOF"] = c.coverage.get("nodes_ending_at_EOF", 0) + sum(1 for o in ntexts if o.get("at_eof")) + \
             sum(1 for o in engines if o.get("at_eof"))
 
